@@ -329,6 +329,10 @@ def _apply(c, op, dom, impl, kind):
         _pre()
         new = type(c)(arg)
         return listing(new, mapping)
+    if name == "byValue":
+        # (mappings only; the reference model has no opinion on byValue --
+        # the replicas of a scenario are compared with each other)
+        return [tuple(x) for x in c.byValue(V(dom, op[1]))]
     if name == "minKey":
         return c.minKey() if len(op) == 1 else c.minKey(K(dom, op[1]))
     if name == "maxKey":
